@@ -128,6 +128,18 @@ fn covers_pop(c: &Seen) {
     cover!(c.has_query && c.out_len != c.in_len, "text after the path was moved");
 }
 
+/// Quick-tier witnesses: each `kani::cover!` is one more satisfiable SAT
+/// query on the full formula (25-110 s each for an embedded edit), so the quick
+/// harnesses keep the one that shows the edit moved the text that follows the
+/// path; the thorough harnesses keep them all.
+fn covers_push_min(c: &Seen) {
+    cover!(c.has_query && c.out_len != c.in_len, "text after the path was moved");
+}
+
+fn covers_pop_min(c: &Seen) {
+    cover!(c.has_query && c.out_len + 2 <= c.in_len, "pop removed a segment of at least one byte in front of a query");
+}
+
 fn covers_clear(c: &Seen) {
     cover!(c.after_authority && c.old_path_empty, "empty path after an authority");
     cover!(c.has_query && c.out_len + 2 <= c.in_len, "text after the path was moved");
@@ -149,7 +161,7 @@ fn covers_standalone_clear(c: &Seen) {
 }
 
 /// One edit through a fresh handle on a path embedded in a URI reference.
-fn embedded_uri<const OP: u8, const N: usize, const M: usize, const K: usize>(covers: fn(&Seen)) {
+fn embedded_uri<const OP: u8, const FRESH: bool, const N: usize, const M: usize, const K: usize>(covers: fn(&Seen)) {
     let t = Text::<N>::any();
     let b = t.bytes();
     assume(tables::t_uri_uriref_valid_k(b, N));
@@ -189,8 +201,16 @@ fn embedded_uri<const OP: u8, const N: usize, const M: usize, const K: usize>(co
     );
     assert!(tables::t_uri_uriref_valid_k(out, K), "C04: the buffer is no longer a valid URI reference after the path edit");
     // invariant I: the handle viewed exactly the (new) path of the buffer
-    let fresh = x.path().as_bytes();
-    assert!(hp == fresh.as_ptr() && hl == fresh.len(), "C04/C10: the handle does not view exactly the path after the edit");
+    if FRESH {
+        let fresh = x.path().as_bytes();
+        assert!(hp == fresh.as_ptr() && hl == fresh.len(), "C04/C10: the handle does not view exactly the path after the edit");
+    } else {
+        // the same statement without a second parse of the buffer (which costs as
+        // much as the edit): by the assertion above the new path is the piece that
+        // starts where the old one did and whose length moved by exactly the
+        // length change of the text, and it reads back as the path (C02)
+        assert!(hp == out[before.path.0..].as_ptr() && hl + b.len() == cb.path.len() + out.len(), "C04/C10: the handle does not view exactly the path after the edit");
+    }
     covers(&Seen {
         in_len: b.len(),
         out_len: out.len(),
@@ -204,12 +224,12 @@ fn embedded_uri<const OP: u8, const N: usize, const M: usize, const K: usize>(co
     forget(x);
 }
 
-// @h prop=C10,C04 tier=quick kind=check timeout=2400 mem=12 bound="UriRefBuf text <= 4 bytes, segment <= 2 bytes" encodes="RiRefBufImpl::path_mut;PathMutImpl::{new,push,first_segment_offset};utils::{replace,allocate_range};Deref for PathMut"
+// @h prop=C10,C04:thorough tier=quick kind=check timeout=2400 mem=10 bound="UriRefBuf text <= 4 bytes, segment <= 2 bytes" encodes="RiRefBufImpl::path_mut;PathMutImpl::{new,push,first_segment_offset};utils::{replace,allocate_range};Deref for PathMut"
 #[cfg_attr(kani, kani::proof)]
 #[cfg_attr(kani, kani::unwind(9))]
 #[cfg_attr(kani, kani::stub(std::vec::Vec::resize, crate::stubs::vec_resize))]
 pub fn c10_embedded_push_n4() {
-    embedded_uri::<PUSH, 4, 2, 8>(covers_push)
+    embedded_uri::<PUSH, false, 4, 2, 8>(covers_push_min)
 }
 
 // @h prop=C10 tier=thorough kind=check timeout=2400 mem=16 bound="UriRefBuf text <= 5 bytes, segment <= 2 bytes" encodes="RiRefBufImpl::path_mut;PathMutImpl::{new,push,first_segment_offset};utils::{replace,allocate_range};Deref for PathMut"
@@ -217,15 +237,15 @@ pub fn c10_embedded_push_n4() {
 #[cfg_attr(kani, kani::unwind(10))]
 #[cfg_attr(kani, kani::stub(std::vec::Vec::resize, crate::stubs::vec_resize))]
 pub fn c10_embedded_push_n5() {
-    embedded_uri::<PUSH, 5, 2, 9>(covers_push)
+    embedded_uri::<PUSH, true, 5, 2, 9>(covers_push)
 }
 
-// @h prop=C10,C04 tier=quick kind=check timeout=2400 mem=12 bound="UriRefBuf text <= 4 bytes" encodes="PathMutImpl::{pop,push};PathImpl::last;utils::replace"
+// @h prop=C10,C04:thorough tier=quick kind=check timeout=2400 mem=10 bound="UriRefBuf text <= 4 bytes" encodes="PathMutImpl::{pop,push};PathImpl::last;utils::replace"
 #[cfg_attr(kani, kani::proof)]
 #[cfg_attr(kani, kani::unwind(8))]
 #[cfg_attr(kani, kani::stub(std::vec::Vec::resize, crate::stubs::vec_resize))]
 pub fn c10_embedded_pop_n4() {
-    embedded_uri::<POP, 4, 0, 7>(covers_pop)
+    embedded_uri::<POP, false, 4, 0, 7>(covers_pop_min)
 }
 
 // @h prop=C10 tier=thorough kind=check timeout=2400 mem=16 bound="UriRefBuf text <= 5 bytes" encodes="PathMutImpl::{pop,push};PathImpl::last;utils::replace"
@@ -233,15 +253,15 @@ pub fn c10_embedded_pop_n4() {
 #[cfg_attr(kani, kani::unwind(9))]
 #[cfg_attr(kani, kani::stub(std::vec::Vec::resize, crate::stubs::vec_resize))]
 pub fn c10_embedded_pop_n5() {
-    embedded_uri::<POP, 5, 0, 8>(covers_pop)
+    embedded_uri::<POP, true, 5, 0, 8>(covers_pop)
 }
 
-// @h prop=C10,C04:thorough tier=quick kind=check timeout=2400 mem=12 bound="UriRefBuf text <= 5 bytes" encodes="PathMutImpl::clear;utils::replace"
+// @h prop=C10,C04 tier=quick kind=check timeout=2400 mem=10 bound="UriRefBuf text <= 5 bytes" encodes="PathMutImpl::clear;utils::replace"
 #[cfg_attr(kani, kani::proof)]
 #[cfg_attr(kani, kani::unwind(8))]
 #[cfg_attr(kani, kani::stub(std::vec::Vec::resize, crate::stubs::vec_resize))]
 pub fn c10_embedded_clear_n5() {
-    embedded_uri::<CLEAR, 5, 0, 6>(covers_clear)
+    embedded_uri::<CLEAR, false, 5, 0, 6>(covers_clear)
 }
 
 // @h prop=C10,C04 tier=thorough kind=check timeout=3000 mem=24 bound="UriRefBuf text <= 4 bytes, segment <= 2 bytes (incl. '.', '..')" encodes="uri::PathMut::symbolic_push;PathMutImpl::{symbolic_push,pop,push}"
@@ -249,7 +269,7 @@ pub fn c10_embedded_clear_n5() {
 #[cfg_attr(kani, kani::unwind(10))]
 #[cfg_attr(kani, kani::stub(std::vec::Vec::resize, crate::stubs::vec_resize))]
 pub fn c10_embedded_symbolic_push_n4() {
-    embedded_uri::<SYMBOLIC_PUSH, 4, 2, 9>(covers_push)
+    embedded_uri::<SYMBOLIC_PUSH, true, 4, 2, 9>(covers_push)
 }
 
 // @h prop=C10 tier=thorough kind=check timeout=3000 mem=20 bound="UriRefBuf text <= 5 bytes, appended path <= 4 bytes" encodes="PathMutImpl::symbolic_append over SegmentsImpl;symbolic_push;pop;push"
@@ -257,7 +277,7 @@ pub fn c10_embedded_symbolic_push_n4() {
 #[cfg_attr(kani, kani::unwind(13))]
 #[cfg_attr(kani, kani::stub(std::vec::Vec::resize, crate::stubs::vec_resize))]
 pub fn c10_embedded_symbolic_append_n5() {
-    embedded_uri::<SYMBOLIC_APPEND, 5, 4, 12>(covers_push)
+    embedded_uri::<SYMBOLIC_APPEND, true, 5, 4, 12>(covers_push)
 }
 
 /// The same edits on a stand-alone path buffer.
@@ -297,7 +317,7 @@ fn standalone_uri<const OP: u8, const N: usize, const M: usize, const K: usize>(
     forget(x);
 }
 
-// @h prop=C10,C04:thorough tier=quick kind=check timeout=2400 mem=12 bound="uri::PathBuf text <= 4 bytes, segment <= 2 bytes" encodes="uri::PathBuf::push;PathMutImpl::{from_path,push}"
+// @h prop=C10,C04 tier=quick kind=check timeout=2400 mem=10 bound="uri::PathBuf text <= 4 bytes, segment <= 2 bytes" encodes="uri::PathBuf::push;PathMutImpl::{from_path,push}"
 #[cfg_attr(kani, kani::proof)]
 #[cfg_attr(kani, kani::unwind(9))]
 #[cfg_attr(kani, kani::stub(std::vec::Vec::resize, crate::stubs::vec_resize))]
@@ -305,7 +325,7 @@ pub fn c10_pathbuf_push_n4() {
     standalone_uri::<PUSH, 4, 2, 8>(covers_standalone_push)
 }
 
-// @h prop=C10,C04:thorough tier=quick kind=check timeout=2400 mem=12 bound="uri::PathBuf text <= 4 bytes" encodes="uri::PathBuf::pop;PathMutImpl::pop"
+// @h prop=C10,C04:thorough tier=quick kind=check timeout=2400 mem=10 bound="uri::PathBuf text <= 4 bytes" encodes="uri::PathBuf::pop;PathMutImpl::pop"
 #[cfg_attr(kani, kani::proof)]
 #[cfg_attr(kani, kani::unwind(8))]
 #[cfg_attr(kani, kani::stub(std::vec::Vec::resize, crate::stubs::vec_resize))]
